@@ -40,7 +40,7 @@ Definition maxlen (ps : list bytes) : N := fold_left (fun m p => N.max m (lenN p
 
 Definition tell_obs (mtu : Z) (r : result (list bytes)) : sx :=
   match r with
-  | Ok ps => SL [sx_z mtu; sym "ok"; SN (lenN ps); SN (digest ps); SN (maxlen ps); SN 1;
+  | Ok ps => SL [sx_z mtu; sym "ok"; SN (lenN ps); SN (if lenN ps <=? 2000 then digest ps else 0); SN (maxlen ps); SN 1;
                  if lenN ps <=? 32 then SL (map SB (sort_bytes ps)) else sym "big"]
   | Err _ => SL [sx_z mtu; sym "err"]
   | Panic _ => sym "panic"
